@@ -48,6 +48,9 @@ CHECKS = {
  'C17': dict(cat=MC, technique='TLA+ construction T = R D R^T from integer principal values and integer-quaternion rotations (exact integers), definitions of all equivalent stresses from the principal values, rotation-invariance theorems checked by TLC; the float image of every lattice tensor evaluated by the real functions and the accessor',
    text='TLC proves on the exact lattice that the component formulas are rotation invariant and that the definitions obey the Mises/Tresca bounds; each (principal values, rotation) state is an implementation test whose expected value comes from the principal values (never an eigen-solver), at four scales (homogeneity), scalar / column / accessor forms, with the documented +1 sign rule required wherever the code arithmetic is exact.',
    note='sign of a mathematically zero indicator accepted either way for inexactly representable rotated tensors', ref='5 C17'),
+ 'C20': dict(cat=MC, technique='TLA+ state machine of the VMAP file under add_geometry / add_node_set / add_element_set / add_variable with success and failure branches (spec/vmap/Vmap.tla); TLC explores every call history to a depth, checks RoundTrip / NoPartial / history independence; every reachable history is executed on a fresh VMAPExport file and the file projected through VMAPImport is compared with the specification state',
+   text='Call histories over a mesh catalogue (2-D, 3-D, gapped/descending ids, interleaved rows, mixed element types, unsupported and out-of-range ids) form a finite state space; TLC checks the round-trip, no-partial-write and every-valid-mesh-is-accepted properties in every state / step, and each state is replayed into the real exporter and importer (values are distinguishable doubles per mesh row and column).',
+   note='catalogue meshes; quick tier replays all histories up to depth 2 and a seeded 35 % of depth 3; five defects found this way were repaired in /repo', ref='5 C20'),
 }
 PENDING = 'check not built yet in this round (planned, see DESIGN.md section 5)'
 NA = {
